@@ -165,6 +165,7 @@ def _check_main(ctx, res) -> None:
     # which methods mutate (directly, or via a self.method that does)
     def direct_mutations(fn) -> List[ast.Call]:
         locs = set()
+        pnames = set(param_names(fn))  # a file-system command object handed in as a parameter
         for n in walk_local(fn):
             if isinstance(n, ast.Assign) and isinstance(n.value, ast.Call) and is_self_attr(n.value.func) \
                     and "fscommands" in n.value.func.attr:
@@ -173,7 +174,7 @@ def _check_main(ctx, res) -> None:
         for c in calls_in(fn):
             if isinstance(c.func, ast.Attribute) and c.func.attr in MUTATOR_KIND:
                 r = c.func.value
-                if (isinstance(r, ast.Name) and r.id in locs) or (is_self_attr(r) and "commands" in r.attr):
+                if (isinstance(r, ast.Name) and (r.id in locs or (r.id in pnames and "commands" in r.id))) or (is_self_attr(r) and "commands" in r.attr):
                     out.append(c)
         return out
 
@@ -182,6 +183,17 @@ def _check_main(ctx, res) -> None:
         ks = {MUTATOR_KIND[c.func.attr] for c in direct_mutations(m.node)}
         if ks:
             mut_methods[name] = ks
+    # ... or through a private method of the class that does (a mutation split into private steps)
+    changed = True
+    while changed:
+        changed = False
+        for name, m in ops.methods.items():
+            for c in calls_in(m.node):
+                if is_self_attr(c.func) and c.func.attr in mut_methods and c.func.attr != name and c.func.attr.startswith("_"):
+                    add = mut_methods[c.func.attr] - mut_methods.get(name, set())
+                    if add and name.startswith("_"):
+                        mut_methods.setdefault(name, set()).update(add)
+                        changed = True
     n131 = 0
     for name, m in sorted(ops.methods.items()):
         if name.startswith("_") and name != "__init__" and name in mut_methods:
@@ -390,6 +402,24 @@ def _check_main(ctx, res) -> None:
 
     # ---- R13.6 the filtered observer reports what it tested (guard/action agreement) and covers both ends of a move
     n136 = 0
+
+    def parent_test_subject(t) -> Optional[str]:
+        """norm(S) when the guard asks "is the PARENT of S watched": `S.parent in self.<table>` written in place, or a call
+        `self._helper(S)` of a private method that returns `<param>.parent in self.<table>`"""
+        if isinstance(t, ast.Compare) and len(t.ops) == 1 and isinstance(t.ops[0], ast.In) and isinstance(t.left, ast.Attribute) \
+                and t.left.attr == "parent" and is_self_attr(t.comparators[0]):
+            return norm(t.left.value)
+        if isinstance(t, ast.Call) and is_self_attr(t.func) and len(t.args) == 1:
+            h = fro.methods.get(t.func.attr)
+            if h is not None:
+                ps = param_names(h.node)[1:]
+                rets = [r.value for r in walk_local(h.node) if isinstance(r, ast.Return) and r.value is not None]
+                if len(ps) == 1 and len(rets) == 1 and isinstance(rets[0], ast.Compare) and isinstance(rets[0].ops[0], ast.In) \
+                        and isinstance(rets[0].left, ast.Attribute) and rets[0].left.attr == "parent" \
+                        and isinstance(rets[0].left.value, ast.Name) and rets[0].left.value.id == ps[0]:
+                    return norm(t.args[0])
+        return None
+
     for mname, m in sorted(fro.methods.items()):
         if not mname.startswith("_update_changes_caused_by"):
             continue
@@ -411,17 +441,15 @@ def _check_main(ctx, res) -> None:
                 gs = cfg.guards(n.id)
                 if isinstance(a0, ast.Attribute) and a0.attr == "parent":
                     subj = norm(a0.value)
-                    ok = any(pol and isinstance(t, ast.Call) and call_name(t) == "_is_parent_changed" and t.args and norm(t.args[0]) == subj
-                             for t, pol in gs)
-                    what = f"add_changed({ast.unparse(a0)}) is guarded by _is_parent_changed({ast.unparse(a0.value)})"
+                    ok = any(pol and parent_test_subject(t) == subj for t, pol in gs)
+                    what = f"add_changed({ast.unparse(a0)}) is guarded by the test that the parent of {ast.unparse(a0.value)} is watched"
                     bad = (f"{mname}: reports {ast.unparse(a0)} as changed under a test on a different resource "
-                           f"({[ast.unparse(t) for t, p in gs if isinstance(t, ast.Call)]}): the parent folder of the resource actually tested is never "
+                           f"({[ast.unparse(t) for t, p in gs if parent_test_subject(t)]}): the parent folder of the resource actually tested is never "
                            "reported, so a cached package keeps a stale child table")
                     # independence: the report for one resource's parent must not depend on the outcome of the
                     # parent test of ANOTHER resource (an `elif` makes the destination's parent unreported whenever
                     # the source's parent is watched too)
-                    foreign = [t for t, pol in gs if isinstance(t, ast.Call) and call_name(t) == "_is_parent_changed" and t.args
-                               and norm(t.args[0]) != subj]
+                    foreign = [t for t, pol in gs if parent_test_subject(t) not in (None, subj)]
                     if ok and foreign:
                         ok = False
                         bad = (f"{mname}: the report of {ast.unparse(a0)} is control-dependent on the parent test of another resource "
@@ -440,7 +468,7 @@ def _check_main(ctx, res) -> None:
                 # another resource (an `elif` chain): the file and its folder can both be watched, and both must be told
                 neg = [t for t, pol in gs if not pol and (
                     (isinstance(t, ast.Compare) and len(t.ops) == 1 and isinstance(t.ops[0], ast.In) and norm(t.left) != norm(a0)) or
-                    (isinstance(t, ast.Call) and call_name(t) == "_is_parent_changed"))]
+                    (isinstance(t, ast.Call) and parent_test_subject(t) is not None))]
                 if ok and neg:
                     ok = False
                     bad = (f"{mname}: {c.func.attr}({ast.unparse(a0)}) is only reached when `{ast.unparse(neg[0])}` is false: when the other resource is "
